@@ -592,6 +592,23 @@ def r11_4(ctx, rr):
         rr.instances += 1
         rr.check(L.get("len") == ("var", "len") and L.get("bit_width") == ("var", "bit_width") and (L.get("mask") == ("call", "bit_field_vec::mask", (("var", "bit_width"),)) or _width_mask_of(L.get("mask", ("unk", "?"))) == ("var", "bit_width")),
                  "%s:fields" % short_fn(b.key), "%s must store len, bit_width and mask(bit_width)" % b.key, b.span)
+    # with_capacity reserves, it does not allocate contents: the backend of an empty vector holds no word per reserved
+    # element (mem_size counts the words of the backend; a vector filled below its capacity would carry the difference)
+    wc = F.one(r"^bits::bit_field_vec::BitFieldVec::<W>::with_capacity$")
+    cap_ids = [p["id"] for p in wc.params if p.get("k") == "PBind"][1:2]
+    Tw = Termizer(F, wc)
+    reserve = [n for n in walk(wc.body) if n.get("k") in ("Call", "MethodCall") and (cname(F, n) or "").endswith(("Vec::with_capacity", "Vec::reserve", "Vec::reserve_exact"))]
+    filled = []
+    from r_guards import simple_env
+    Ts = simple_env(F, wc)
+    for n in walk(wc.body):
+        cn = cname(F, n) or ""
+        if n.get("k") in ("Call", "MethodCall") and (cn.endswith("vec::from_elem") or cn.endswith("Vec::resize") or cn.endswith("iter::repeat") or cn.endswith("Vec::extend")):
+            cnt = [a for a in call_args(n)][-1] if cn.endswith("from_elem") else (call_args(n)[1] if len(call_args(n)) > 1 else None)
+            if cnt is not None and mentions(Ts.term(cnt), lambda x: x[0] == "var" and str(x[2]).split("#")[0] in [str(c) for c in cap_ids]):
+                filled.append(n)
+    rr.instances += 1
+    rr.check(bool(reserve) and not filled, "BitFieldVec::with_capacity:reserves-only", "BitFieldVec::with_capacity must reserve room for `capacity` elements (Vec::with_capacity) and not create that many words: found %s" % ([show(F, n)[:60] for n in filled] or "no reservation"), F.loc(filled[0]) if filled else wc.span, props=["C11", "C05"])
     # mask(bit_width) helper
     mb = F.one(r"^bits::bit_field_vec::mask$")
     from r_guards import width_mask_of
@@ -1145,3 +1162,337 @@ def r12_8(ctx, rr):
         if not ok:
             where = raw[0] if raw else b.body
             rr.violate(key, "%s computes the number of bits of caller-supplied sizes with an unchecked product (`%s`): in a release build it wraps, the vector keeps the caller's length over a backend of a few words, and get/set (whose index check passes) access memory out of bounds" % (b.key, show(F, raw[0])[:60] if raw else "no checked product found"), F.loc(where) if raw else b.span)
+
+
+@rule("R14.9", props=["C14", "C05", "C06"], floor=2, title="a packed vector whose equality ignores the storage beyond its elements is not hashed through that storage (no derived Hash next to the masking PartialEq; a hand-written one hashes sub-ranges and masked words only)")
+def r14_9(ctx, rr):
+    """Equality of BitVec / BitFieldVec compares the elements and ignores stale bits of the last word and spare
+    words (R14.5); `#[derive(Hash)]` hashes the backend field as it is, so two equal vectors with different
+    histories hash differently (and a HashSet holds both). Hashing is a read of the contents like any other."""
+    from guards import is_derived
+    F = ctx.F()
+    eqs = [b for b in F.fns() if b.name == "eq" and (b.impl_trait or "").endswith("cmp::PartialEq") and not is_derived(b) and b.file.endswith(("bits/bit_vec.rs", "bits/bit_field_vec.rs"))]
+    adts = sorted(set(b.impl_adt for b in eqs if b.impl_adt))
+    if len(adts) < 2:
+        raise AnchorMissing("expected the hand-written PartialEq of BitVec and BitFieldVec, found %s" % adts)
+    for adt in adts:
+        hs = [b for b in F.fns() if b.name == "hash" and (b.impl_trait or "").endswith("hash::Hash") and b.impl_adt == adt]
+        sc = ["C14", "C06"] if adt.endswith("BitVec") else ["C14", "C05"]
+        short = adt.split("::")[-1]
+        rr.instances += 1
+        key = "%s:hash-agrees-with-eq" % short
+        bad = None
+        for h in hs:
+            if is_derived(h):
+                bad = (h, "derives Hash: the derived implementation hashes the backend field whole, stale bits and spare words included")
+                break
+            slf = ("var", "self", h.params[0]["id"]) if h.params else None
+
+            def on_node(W, n, K, h=h):
+                nonlocal bad
+                if n.get("k") == "MethodCall" and n["name"] == "hash" and bad is None:
+                    t = W.expand(W.T.term(n["recv"]))
+                    # the backend itself (a field, or a view of all of it) rather than a sub-range or a word of it
+                    while t[0] == "call" and t[1] in ("AsRef::as_ref", "Deref::deref", "Vec::as_slice", "Borrow::borrow") and t[2]:
+                        t = t[2][0]
+                    if t[0] == "field" and t[2] not in ("len", "bit_width", "mask") and "usize" not in F.ty(n["recv"]):
+                        bad = (h, "hashes `%s`, the whole backend" % show(F, n["recv"])[:60])
+            Walker(F, h, on_node=on_node).run()
+        rr.ob(bad is None, key=key, sample={"type": adt, "hash_impls": [h.key for h in hs]})
+        if bad is not None:
+            rr.violate(key, "%s: equality compares the elements only, but %s %s: equal vectors with different histories (a pop, a shrinking resize, spare words) get different hashes" % (adt, bad[0].key, bad[1]), bad[0].span, props=sc)
+
+
+@rule("R14.10", props=["C14", "C06", "C05", "C10"], floor=2, title="the word at the end of the contents is rewritten under the low mask of the length residual `len % BITS` only where that residual is known to be non-zero (the mask of 0 bits selects nothing: a full word is cleared, or the word after the last one is touched)")
+def r14_10(ctx, rr):
+    """`word &= (1 << (n % BITS)) - 1` keeps the first n % BITS bits; for n a multiple of BITS the mask is 0 and the
+    statement wipes a whole word that, by the very computation of its index, is a full word of valid contents. Every
+    such statement on today's tree sits under `if residual != 0` (or an early return on residual == 0)."""
+    F = ctx.F()
+    n_sites = 0
+    for b in F.fns():
+        if not b.file.endswith(("bits/bit_vec.rs", "bits/bit_field_vec.rs")) or b.dk not in ("Fn", "AssocFn"):
+            continue
+        sites = []
+        # what the function makes the logical length: `self.len = e`
+        new_lens = []
+
+        def length_like(x, new_lens=new_lens):
+            # the logical length (or the value that becomes it here), possibly times the bit width: the *end* of the
+            # contents, as opposed to the start position of an element (whose residual 0 rightly keeps nothing)
+            if x[0] == "op" and x[1] == "*":
+                return length_like(x[2]) or length_like(x[3])
+            if x[0] == "field" and x[2] == "len" and x[1][0] == "var" and x[1][1] == "self":
+                return True
+            if x[0] == "call" and x[1].split("::")[-1] == "len" and len(x[2]) == 1 and x[2][0][0] == "var" and x[2][0][1] == "self":
+                return True
+            return x in new_lens
+
+        def on_node(W, n, K, sites=sites, new_lens=new_lens):
+            if n.get("k") == "Assign" and n["l"].get("k") == "Field" and n["l"]["name"] == "len":
+                new_lens.append(W.expand(W.T.term(n["r"])))
+            if W.debug_depth or n.get("k") not in ("AssignOp", "Assign") or n["l"].get("k") == "Path":
+                return
+            t = canon_masks(W.expand(W.T.term(n["r"])))
+            def unguarded(x):
+                # sub-terms, except the branches of a conditional value that itself tests a residual (`if residual != 0 { .. mask .. } else { 0 }`)
+                yield x
+                if x[0] == "ite" and mentions(x[1], lambda y: y[0] == "op" and y[1] == "%"):
+                    return
+                for y in x[1:]:
+                    if isinstance(y, tuple) and y and isinstance(y[0], str):
+                        yield from unguarded(y)
+                    elif isinstance(y, tuple):
+                        for z in y:
+                            if isinstance(z, tuple) and z and isinstance(z[0], str):
+                                yield from unguarded(z)
+            for m in unguarded(t):
+                if m[0] == "lowmask" and m[1][0] == "op" and m[1][1] == "%" and _is_wordbits_like(m[1][3]):
+                    pending.append((n, m[1], K.entails(atom_ne(m[1], ("int", 0))) or K.entails(atom_le(("int", 0), m[1], True)), K.show()))
+                    break
+            if False:
+                sites.append((n, t[1], K.entails(atom_ne(t[1], ("int", 0))) or K.entails(atom_le(("int", 0), t[1], True)), K.show()))
+        pending = []
+        try:
+            Walker(F, b, on_node=on_node).run()
+        except RecursionError:
+            continue
+        # (the assignment to self.len usually follows the masking: decide once the whole body has been walked)
+        sites = [x for x in pending if length_like(x[1][2])]
+        for n, r, ok, known in sites:
+            n_sites += 1
+            rr.instances += 1
+            bitvec = b.file.endswith("bits/bit_vec.rs")
+            key = "%s:low-mask-of-nonzero-residual" % short_fn(b.key)
+            rr.ob(ok, key=key, sample={"fn": b.key, "stmt": show(F, n)[:100], "residual": tshow(r)})
+            if not ok:
+                rr.violate(key, "%s: `%s` keeps the low `%s` bits of a backend word without `%s != 0` established: when it is 0 the mask is 0 and a full word of contents is cleared (established: %s)" % (
+                    b.key, show(F, n)[:100], tshow(r), tshow(r), "; ".join(known[:5]) or "nothing"), F.loc(n), props=(["C14", "C06", "C10"] if bitvec else ["C14", "C05", "C10"]))
+    if n_sites < 2:
+        raise AnchorMissing("R14.10 found %d last-word statements under a length-residual mask, expected at least 2" % n_sites)
+
+
+def _is_wordbits_like(t):
+    return (t[0] == "def" and t[1].endswith("BITS")) or (t[0] == "int" and t[1] in (8, 16, 32, 64, 128))
+
+
+@rule("R06.7", props=["C06", "C12", "C14"], floor=2, title="the bit iterators keep their cursor within 0..=len in every method that moves it (the end test of next() is an equality)")
+def r06_7(ctx, rr):
+    """BitIterator / AtomicBitIterator::next stop on `next_bit_pos == len` and read the word of the cursor unchecked:
+    the structure invariant `next_bit_pos <= len` is what makes the equality test an end test. Every method of the
+    iterator types that writes the cursor (next, and any override of nth / advance_by / fold added later) must
+    re-establish it, assuming it on entry."""
+    F = ctx.F()
+    its = [b for b in F.fns() if b.file.endswith("bits/bit_vec.rs") and re.search(r"(Atomic)?BitIterator<", b.impl_self or "") and b.params and b.params[0].get("name") == "self"]
+    n_writes = 0
+    for b in its:
+        slf = ("var", "self", b.params[0]["id"])
+        cur, ln = ("field", slf, "next_bit_pos"), ("field", slf, "len")
+        found = []
+
+        def on_node(W, n, K, found=found, cur=cur, ln=ln):
+            if n.get("k") in ("Assign", "AssignOp") and n["l"].get("k") == "Field" and n["l"]["name"] == "next_bit_pos":
+                old = W.T.term(n["l"])
+                r = W.T.term(n["r"])
+                new = r if n["k"] == "Assign" else mk_op(n["op"][:-1], old, r)
+                ok = K.entails(atom_le(new, ln))
+                if not ok and n["k"] == "AssignOp" and n["op"] == "+=" and r == ("int", 1):
+                    ok = K.entails(atom_le(old, ln, True))
+                found.append((n, ok, tshow(new), K.show()))
+        Walker(F, b, on_node=on_node, assume=[atom_le(cur, ln)]).run()
+        for n, ok, new, known in found:
+            n_writes += 1
+            rr.instances += 1
+            key = "%s:cursor<=len" % short_fn(b.key)
+            rr.ob(ok, key=key, sample={"fn": b.key, "new cursor": new, "established": known[:4]})
+            if not ok:
+                rr.violate(key, "%s moves the cursor to `%s` without `<= self.len` established (assuming next_bit_pos <= len on entry; established: %s): next() ends the iteration on `next_bit_pos == len` only, so a cursor beyond len yields bits that are not part of the vector and then reads past the backend" % (
+                    b.key, new, "; ".join(known[:5]) or "nothing"), F.loc(n))
+    if n_writes < 2:
+        raise AnchorMissing("R06.7: expected the cursor updates of BitIterator::next and AtomicBitIterator::next, found %d" % n_writes)
+
+
+@rule("R06.8", props=["C06", "C05", "C01", "C14"], floor=2, title="a method of a growable packed vector appends a word to its backend only where the contents are known to reach the end of the backend (the words are addressed by len / BITS, and a backend may have spare words)")
+def r06_8(ctx, rr):
+    """After pop, a shrinking resize, clear, or from_raw_parts over a longer vector the backend has more words than
+    the contents need. `bits.push(w)` puts w after the *last word of the backend*; it is the word at len / BITS only
+    when `bits.len() * BITS` does not exceed the position being written. push() tests exactly that before growing."""
+    F = ctx.F()
+    n_sites = 0
+    for b in F.fns():
+        if not b.file.endswith(("bits/bit_vec.rs", "bits/bit_field_vec.rs")) or not b.params or b.params[0].get("name") != "self":
+            continue
+        if not re.search(r"^(bits::bit_vec::BitVec|bits::bit_field_vec::BitFieldVec)(<|$)", (b.impl_self or "")):
+            continue
+        slf = ("var", "self", b.params[0]["id"])
+        be = ("field", slf, "bits")
+        sites = []
+        subs = []
+
+        def on_node(W, n, K, sites=sites, be=be, slf=slf, subs=subs):
+            if not W.debug_depth and n.get("k") == "Binary" and n["op"] == "-" and F.ty(n) in ("usize", "u64", "u32"):
+                # `needed - bits.len()`: the backend may well be longer than any count derived from the contents
+                rt = W.expand(W.T.term(n["r"]))
+                if rt[0] == "call" and rt[1].split("::")[-1] == "len" and len(rt[2]) == 1 and W.expand(rt[2][0]) in (be, ("call", "AsRef::as_ref", (be,))):
+                    lt = W.expand(W.T.term(n["l"]))
+                    okd = K.entails(atom_le(rt, lt))
+                    subs.append((n, okd, K.show()))
+            if W.debug_depth or n.get("k") != "MethodCall" or n["name"] not in ("push", "extend_from_slice", "extend", "resize", "insert") or cname(F, n) is None or not cname(F, n).startswith("Vec::"):
+                return
+            if W.expand(W.T.term(n["recv"])) != be:
+                return
+            def is_backend_len(x):
+                return mentions(x, lambda y: y[0] == "call" and y[1].split("::")[-1] == "len" and len(y[2]) == 1 and W.expand(y[2][0]) in (be, ("call", "AsRef::as_ref", (be,))))
+            def is_contents(x):
+                return mentions(x, lambda y: y == ("field", slf, "len"))
+            # resize(n, 0) with n computed from the new length is growth *to* a size, not an append
+            if n["name"] == "resize":
+                return
+            ok = any(a[0] == "le" and is_backend_len(W.expand(a[1])) and not is_contents(W.expand(a[1])) and is_contents(W.expand(a[2])) for a in K.atoms)
+            sites.append((n, ok, K.show()))
+        try:
+            Walker(F, b, on_node=on_node).run()
+        except RecursionError:
+            continue
+        for n, okd, known in subs:
+            rr.instances += 1
+            key = "%s:backend-length-subtracted" % short_fn(b.key)
+            rr.ob(okd, key=key, sample={"fn": b.key, "expr": show(F, n)[:80]})
+            if not okd:
+                rr.violate(key, "%s computes `%s` without `bits.len() <= ...` established (established: %s): after pop / a shrinking resize / clear the backend has more words than the contents need, and the subtraction underflows (a panic in debug builds, a huge reservation in release)" % (
+                    b.key, show(F, n)[:80], "; ".join(known[:4]) or "nothing"), F.loc(n), props=(["C06", "C14"] if b.file.endswith("bits/bit_vec.rs") else ["C05", "C14"]))
+        for n, ok, known in sites:
+            n_sites += 1
+            rr.instances += 1
+            key = "%s:append-only-when-backend-is-exhausted" % short_fn(b.key)
+            bitvec = b.file.endswith("bits/bit_vec.rs")
+            rr.ob(ok, key=key, sample={"fn": b.key, "site": show(F, n)[:80], "established": known[:4]})
+            if not ok:
+                rr.violate(key, "%s: `%s` appends after the last word of the backend without `bits.len() * BITS <= (position written)` established (established: %s): on a vector whose backend has spare words (after pop / a shrinking resize / clear / from_raw_parts) the new word is not the word at len / BITS, and len advances over stale words" % (
+                    b.key, show(F, n)[:80], "; ".join(known[:5]) or "nothing"), F.loc(n), props=(["C06", "C01", "C14"] if bitvec else ["C05", "C14"]))
+    if n_sites < 2:
+        raise AnchorMissing("R06.8: expected the guarded backend growth of BitVec::push and BitFieldVec::push, found %d sites" % n_sites)
+
+
+_INT_W = {"u8": 8, "i8": 8, "u16": 16, "i16": 16, "u32": 32, "i32": 32, "u64": 64, "i64": 64, "usize": 64, "isize": 64, "u128": 128, "i128": 128}
+
+
+@rule("R12.9", props=["C04", "C03", "C05", "C06", "C01", "C02", "C10", "C12", "C14", "C16", "C07", "C09", "C18"], floor=60, title="a mask or bound built from a literal shifted by a variable amount is computed in the type it is used in (not in a narrower or signed type -- the i32 a bare literal falls back to -- and widened by a cast afterwards)")
+def r12_9(ctx, rr):
+    """`((1 << l) - 1) as usize` type-checks with the literal falling back to i32: the shift overflows from l = 31
+    (a panic in debug builds, a wrong mask in release) although the surrounding code is written for l up to 63."""
+    F = ctx.F()
+    n_sites = 0
+    for b in F.bodies:
+        if "::tests::" in b.path or "::test::" in b.path or not b.file.startswith("src/"):
+            continue
+        for n, ps in walk_with_parents(b.body):
+            if not (n.get("k") == "Binary" and n["op"] == "<<" and n["l"].get("k") == "Lit" and n["r"].get("k") != "Lit"):
+                continue
+            n_sites += 1
+            rr.instances += 1
+            ty = F.ty(n)
+            # the value flows through arithmetic into a cast?
+            cast_ty = None
+            child = n
+            for p in reversed(ps):
+                if p.get("k") == "Binary" and p["op"] in ("-", "+", "|", "&", "^", "*") and F.ty(p) == ty:
+                    child = p
+                    continue
+                if p.get("k") == "Unary" and p.get("op") in ("!", "-"):
+                    child = p
+                    continue
+                if p.get("k") == "Cast" and p.get("e") is child:
+                    cast_ty = F.ty(p)
+                break
+            bad = cast_ty is not None and cast_ty in _INT_W and ty in _INT_W and (_INT_W[cast_ty] > _INT_W[ty] or (ty.startswith("i") and not cast_ty.startswith("i")))
+            key = "%s:shift-computed-in-%s-used-as-%s" % (strip_generics(b.key or b.path).split("::")[-1], ty, cast_ty)
+            rr.ob(not bad, key="literal-shift-type", nontrivial=bad)
+            if bad:
+                rr.violate(key, "%s: `%s` is computed in %s (the type its literal falls back to) and only then cast to %s: the shift overflows for amounts from %d upwards, which the %s-typed code around it allows" % (
+                    b.key or b.path, show(F, n)[:60], ty, cast_ty, _INT_W[ty] - (1 if ty.startswith("i") else 0), cast_ty), F.loc(n))
+    if n_sites < 60:
+        raise AnchorMissing("R12.9 saw %d literal shifts by a variable amount, expected at least 60" % n_sites)
+
+
+@rule("R05.9", props=["C05", "C06", "C18", "C03"], floor=5, title="an iterator that overrides nth/advance_by gives up (returns None) only in a state in which its own next() returns None (an overshooting jump leaves the iterator exhausted, as repeated next() would)")
+def r05_9(ctx, rr):
+    """`Iterator::nth(n)` is specified as n+1 calls of next(): when fewer than n+1 items remain it returns None *and
+    the iterator is exhausted*. An override that returns None from the overshoot test without moving the cursor to
+    the end keeps yielding the items it claimed to have skipped (skip(), step_by() and nth() are built on it)."""
+    from guards import is_derived
+    F = ctx.F()
+    impls = {}
+    for b in F.fns():
+        if (b.impl_trait or "").endswith("iter::Iterator") and not is_derived(b) and b.file.startswith("src/") and b.name in ("next", "nth", "advance_by"):
+            impls.setdefault(b.impl_self, {})[b.name] = b
+
+    def none_exits(b):
+        """[(node, atoms)] for the `None` values in return position"""
+        pm = {id(n): ps for n, ps in walk_with_parents(b.body)}
+        out = []
+
+        def on_node(W, n, K):
+            if n.get("k") == "Path" and n.get("name") == "None" and n.get("res") == "def" and not W.debug_depth:
+                child = n
+                ok = True
+                for p in reversed(pm.get(id(n), ())):
+                    k = p.get("k")
+                    if k == "Block" and p.get("expr") is child:
+                        pass
+                    elif k == "If" and child is not p.get("c"):
+                        pass
+                    elif k == "Match" and child is not p.get("e"):
+                        pass
+                    elif k == "Ret":
+                        break
+                    elif k in ("Closure", "Loop"):
+                        ok = k == "Loop"
+                        if not ok:
+                            break
+                    elif k == "Block":
+                        ok = False
+                        break
+                    else:
+                        ok = False
+                        break
+                    child = p
+                if ok:
+                    out.append((n, list(K.atoms), K.copy()))
+        Walker(F, b, on_node=on_node).run()
+        return out
+    n_impls = 0
+    for ty, fs in sorted(impls.items(), key=lambda x: str(x[0])):
+        if "next" not in fs:
+            continue
+        n_impls += 1
+        rr.instances += 1
+        ovr = [fs[k] for k in ("nth", "advance_by") if k in fs]
+        if not ovr:
+            rr.ob(True, key="iterator:no-jump-override", nontrivial=False)
+            continue
+        nx = none_exits(fs["next"])
+        slf_next = ("var", "self", fs["next"].params[0]["id"])
+        # the exhaustion test of next(): the facts about self under which it returns None
+        ex = None
+        for n, atoms, K in nx:
+            mine = [a for a in atoms if mentions(a, lambda x: x == slf_next)]
+            if mine:
+                ex = mine
+                break
+        for o in ovr:
+            slf_o = ("var", "self", o.params[0]["id"])
+            key = "%s:%s:gives-up-only-when-exhausted" % (short_fn(o.key), o.name)
+            if ex is None:
+                rr.ob(True, key=key, nontrivial=False)
+                continue
+            for n, atoms, K in none_exits(o):
+                need = [rewrite_term(a, slf_next, slf_o) for a in ex]
+                ok = all(K.entails(a) for a in need)
+                rr.instances += 1
+                rr.ob(ok, key=key, sample={"fn": o.key, "next() is exhausted when": [ashow(a) for a in need], "established": K.show()[:5]})
+                if not ok:
+                    rr.violate(key, "%s returns None at %s in a state in which next() would still yield an item (next() gives up when %s; established here: %s): after an overshooting jump the iterator must be exhausted, as after the same number of next() calls" % (
+                        o.key, F.loc(n), " and ".join(ashow(a) for a in need), "; ".join(K.show()[:5]) or "nothing"), F.loc(n))
+    if n_impls < 5:
+        raise AnchorMissing("R05.9 examined %d hand-written Iterator impls, expected at least 5" % n_impls)
